@@ -30,7 +30,7 @@ impl c2pa::AsyncSigner for AsyncWrap {
     fn reserve_size(&self) -> usize { self.0.reserve_size() }
 }
 
-struct Asset { mime: &'static str, fmt: &'static str, bytes: Vec<u8>, title: String, clean_of: Option<usize> }
+struct Asset { mime: &'static str, fmt: &'static str, bytes: Vec<u8>, title: String, clean_of: Option<usize>, v1: bool }
 
 fn settings_json() -> Value { json!({"verify": {"remote_manifest_fetch": false}}) }
 
@@ -214,6 +214,9 @@ pub fn run(args: &[String]) {
                     // compressed manifests and the signing algorithm vary independently of the other choices
                     let compress = ((vid.wrapping_mul(40503) >> 3) ^ oi) % 3 == 0;
                     let salg = ["ed25519", "es256", "ps256", "es384"][((vid.wrapping_mul(69069) >> 5) ^ oi) % 4];
+                    // a version-1 claim (legacy ingredient assertions) where every signed ingredient is version 1 too
+                    // (a directed history fixes the version with the op's "cv" field)
+                    let claim_v1 = match o["cv"].as_u64() { Some(1) => true, Some(_) => false, None => ((vid.wrapping_mul(2246822519) >> 9) ^ oi) % 3 == 0 } && ings.iter().all(|a| *a == 0 || lib[*a - 1].v1);
                     let mut sj = settings_json();
                     if compress { sj["core"] = json!({"prefer_compress_manifests": true}); }
                     let res = catch(AssertUnwindSafe(|| -> Result<(Vec<u8>, Vec<Value>), String> {
@@ -232,6 +235,7 @@ pub fn run(args: &[String]) {
                         // the claim's hash algorithm varies independently of the other choices
                         let halg = ["sha256", "sha384", "sha256", "sha512"][((vid.wrapping_mul(2654435761) >> 7) ^ oi) % 4];
                         if halg != "sha256" { def["hash_alg"] = json!(halg); }
+                        if claim_v1 { def["claim_version"] = json!(1); }
                         let mut b = Builder::from_context(ctx(&sj)).with_definition(def.to_string().as_str()).map_err(|e| format!("definition:{}", err_kind(&e)))?;
                         if with_thumb { b.add_resource("thumb.jpg", Cursor::new(fixture("thumbnail.jpg"))).map_err(|e| format!("resource:{}", err_kind(&e)))?; }
                         if with_icon { b.add_resource("icon.jpg", Cursor::new(fixture("thumbnail.jpg"))).map_err(|e| format!("resource:{}", err_kind(&e)))?; }
@@ -255,7 +259,25 @@ pub fn run(args: &[String]) {
                             }
                             let ij = ijv.to_string();
                             let mut s = Cursor::new(ibytes.clone());
-                            let r = if fl == "async" { rt.block_on(b.add_ingredient_from_stream_async(ij, imime, &mut s)).map(|_| ()) } else { b.add_ingredient_from_stream(ij, imime, &mut s).map(|_| ()) };
+                            // every fourth signed ingredient comes in through a Reader: a scratch carrier manifest takes the asset as its
+                            // ingredient from the stream, and the new builder takes over that recorded ingredient (with its manifest chain,
+                            // resolved from the carrier's store) with add_ingredient_from_reader
+                            let via_reader = *a > 0 && ijv.get("validation_results").is_none() && (o["via"] == "reader" || (o["via"].is_null() && (vid + 3 * k + oi) % 4 == 1));
+                            let r = if via_reader {
+                                (|| -> c2pa::Result<()> {
+                                    let mut cb = Builder::from_context(ctx(&sj)).with_definition(simple_manifest_json("carrier", "image/jpeg").to_string().as_str())?;
+                                    if fl == "async" { rt.block_on(cb.add_ingredient_from_stream_async(ij.clone(), imime, &mut s))?; } else { cb.add_ingredient_from_stream(ij.clone(), imime, &mut s)?; }
+                                    let mut carrier = Cursor::new(Vec::new());
+                                    cb.sign(signer("ed25519").as_ref(), "image/jpeg", &mut Cursor::new(fixture("no_manifest.jpg")), &mut carrier)?;
+                                    carrier.set_position(0);
+                                    let rd = Reader::from_context(ctx(&sj)).with_stream("image/jpeg", carrier)?;
+                                    b.add_ingredient_from_reader(&rd).map(|i| {
+                                        i.set_title(ijv["title"].as_str().unwrap_or(""));
+                                        i.set_relationship(match rel { "parentOf" => c2pa::Relationship::ParentOf, "componentOf" => c2pa::Relationship::ComponentOf, _ => c2pa::Relationship::InputTo });
+                                        i.set_label(ijv["label"].as_str().unwrap_or(""));
+                                    })
+                                })()
+                            } else if fl == "async" { rt.block_on(b.add_ingredient_from_stream_async(ij, imime, &mut s)).map(|_| ()) } else { b.add_ingredient_from_stream(ij, imime, &mut s).map(|_| ()) };
                             r.map_err(|e| format!("ingredient{}:{}", k + 1, err_kind(&e)))?;
                             facts.push(json!({"k": k + 1, "a": a, "rel": rel}));
                         }
@@ -278,7 +300,7 @@ pub fn run(args: &[String]) {
                     }));
                     match res {
                         Ok(Ok((bytes, facts))) => {
-                            let a = Asset { mime, fmt, bytes, title: title.clone(), clean_of: None };
+                            let a = Asset { mime, fmt, bytes, title: title.clone(), clean_of: None, v1: claim_v1 };
                             let d = read_asset(&a, "sync", &rt);
                             // C39 facts: manifests carried byte-identically; recorded validation vs stand-alone read
                             let pstore = c2pa::jumbf_io::load_jumbf_from_memory(mime, &a.bytes).map(|s| manifest_boxes(&s)).unwrap_or_default();
@@ -307,7 +329,7 @@ pub fn run(args: &[String]) {
                 "T" => {
                     let i = o["i"].as_u64().unwrap() as usize;
                     let a = &lib[i - 1];
-                    let t = Asset { mime: a.mime, fmt: a.fmt, bytes: tamper(a), title: a.title.clone(), clean_of: Some(i) };
+                    let t = Asset { mime: a.mime, fmt: a.fmt, bytes: tamper(a), title: a.title.clone(), clean_of: Some(i), v1: a.v1 };
                     let d = read_asset(&t, "sync", &rt);
                     steps.push(json!({"op": "T", "asset": lib.len() + 1, "of": i, "fmt": a.fmt, "ok": true}));
                     first_read.push(d);
@@ -371,7 +393,7 @@ pub fn fresh(args: &[String]) {
         let (i, mime) = spec.split_once('=').unwrap();
         let mime: &'static str = Box::leak(mime.to_string().into_boxed_str());
         let bytes = std::fs::read(format!("{dir}/{i}")).unwrap_or_default();
-        let a = Asset { mime, fmt: "", bytes, title: String::new(), clean_of: None };
+        let a = Asset { mime, fmt: "", bytes, title: String::new(), clean_of: None, v1: false };
         out.emit(&read_asset(&a, "sync", &rt));
     }
 }
